@@ -1,4 +1,4 @@
-import TxV.Core.Example
+import TxV.Core.Example2
 /-!
 # C07 — the eager scheduler wastes no cycle
 
@@ -22,7 +22,7 @@ theorem c07_no_waste (he : Eager D v S run) {t : Nat} (ht : D.isTrans t = true)
     ∃ t', D.isTrans t' = true ∧ S.ord t' < S.ord t ∧ S.cgr t t' = true ∧ run t' = true :=
   eager_no_waste he ht hready hrunnable hnr
 
--- OBLIGATION c07_blocked_by_conflict : sentence 1 in full (under driver-checked hypotheses Eager and CgrSources = cgrSourcesB on the implementation's cgr; CgrSources is PROVED for the theory's own graph cgrOf D, which Bridge.staticOk compares with the model's graph): … and that running neighbour either shares with it an exclusive method reached on non-exclusive call paths, or is related to it by a lifted add_conflict (transactions not exclusive by definition)
+-- OBLIGATION c07_blocked_by_conflict : sentence 1 in full (under driver-checked per-cycle hypothesis Eager and hypothesis CgrSources, PROVED both for the theory's own graph cgrOf D (cgrOf_sources) and for the executable model's graph (Bridge.elaborate_cgrSources)): … and that running neighbour either shares with it an exclusive method reached on non-exclusive call paths, or is related to it by a lifted add_conflict (transactions not exclusive by definition)
 theorem c07_blocked_by_conflict (he : Eager D v S run) (hsrc : CgrSources D S) {t : Nat}
     (ht : D.isTrans t = true) (hready : v.ready t = true) (hrunnable : Runnable D v run t)
     (hnr : run t = false) :
@@ -70,14 +70,16 @@ theorem c07_nonexclusive_no_implicit {t1 t2 : Nat}
 edges) `T1` is ready and runnable but does not run; `T0`, which shares `M3` with it, runs -/
 example : boundedB Ex.D = true ∧ eagerB Ex.D Ex.v Ex.S Ex.run = true ∧ cgrSourcesB Ex.D Ex.S = true ∧
     Ex.v.ready 1 = true ∧ runnableB Ex.D Ex.v Ex.run 1 = true ∧ Ex.run 1 = false ∧
-    Ex.run 0 = true ∧ Ex.S.cgr 1 0 = true ∧ implicitB Ex.D 1 0 = true ∧ Ex.S.cgr 0 2 = false := by decide
+    Ex.run 0 = true ∧ Ex.S.cgr 1 0 = true ∧ implicitB Ex.D 1 0 = true ∧ Ex.S.cgr 0 2 = false :=
+  ⟨Ex.bounded, Ex.eager, Ex.cgrSources, rfl, Ex.runnable1, rfl, rfl, by decide, by decide, by decide⟩
 
 /-- non-vacuity (nonexclusive methods add no edge): in the second example the two transactions share
 nonexclusive `N` and, below it, exclusive `M`; the computed conflict graph has no edge and both run -/
 example : accept Ex2.D Ex2.ord = true ∧
     ((List.range 5).all fun a => (List.range 5).all fun b => !cgrOf Ex2.D a b) = true ∧
     noImplicitB Ex2.D 0 1 = true ∧ eagerB Ex2.D Ex2.v Ex2.S Ex2.run = true ∧
-    Ex2.run 0 = true ∧ Ex2.run 1 = true := by decide
+    Ex2.run 0 = true ∧ Ex2.run 1 = true :=
+  ⟨Ex2.accepted, Ex2.noEdges, Ex2.noImplicit01, Ex2.eager, rfl, rfl⟩
 
 end TxV.Core
 
